@@ -960,3 +960,64 @@ def m_leading_zeros(c):
             c.ret(Int.const(bits if k is None else bits - 1 - k, 32, False), st=s)
         except Infeasible:
             pass
+
+
+@model("std::collections::VecDeque::range", "std::collections::VecDeque::range_mut")
+def m_deque_range(c):
+    """iterator over a sub-range of a deque: like slice iteration over [start, end)"""
+    from models import get_range, prove_le, _vec_arg
+    arr, loc = _vec_arg(c)
+    rv, rloc = c.arg(1)
+    if arr is None:
+        c.ret(Iter("opaque"))
+        return
+    r = get_range(c, rv, rloc, arr, loc, c.st)
+    ln, l = len_lin(c, arr, loc)
+    if r is None:
+        c.ret(Iter("slice", usize(0, ln.hi), arr.elem if not arr.elem.is_bot() else Top(), extra="ref"))
+        return
+    s, sl, e, el = r
+    c.oblige("PRECOND", "range start <= end <= len", prove_le(c.st, sl, el, s, e) and prove_le(c.st, el, l, e, ln))
+    try:
+        if sl is not None and el is not None:
+            c.st.add_le(sl - el)
+        if el is not None and l is not None:
+            c.st.add_le(el - l)
+    except Infeasible:
+        return
+    cnt = usize(max(e.lo - s.hi, 0), max(e.hi - s.lo, 0))
+    cl = (el - sl) if (el is not None and sl is not None) else None
+    c.ret(Iter("slice", cnt, arr.elem if not arr.elem.is_bot() else Top(), extra="ref"), extras=((("rem",), cl),))
+
+
+@model("std::iter::Iterator::for_each")
+def m_for_each(c):
+    """for_each over a slice-like iterator: the closure is run once on the summary element (writes through the element reference are weak
+    updates of the summary, so one abstract run stands for every iteration); anything else the closure may write through a captured
+    &mut is forgotten afterwards, because one run does not account for repeated effects there"""
+    from models import _item
+    it, loc = c.arg(0)
+    clo, _ = c.arg(1)
+    if not isinstance(it, Iter) or it.ikind != "slice" or not isinstance(clo, Closure):
+        c.I.default_call(c)
+        return
+    rem = it.remaining if isinstance(it.remaining, Int) else usize()
+    if rem.hi == 0:
+        c.ret(UNIT)
+        return
+    if rem.lo == 0:
+        s0 = c.fork()
+        c.ret(UNIT, st=s0)
+    elem = it.elem if it.elem is not None and not it.elem.is_bot() else Top()
+    item = _item(c, c.st, it, elem, "foreach")
+    res = c.I.call_closure(c, clo, [(item, None)])
+    if res is None:
+        c.I.default_call(c)
+        return
+    for (s2, rv, rloc, nf) in res:
+        c.I.finish_closure(s2, nf)
+        for cap in clo.captures:
+            if isinstance(cap, Ref) and cap.cell is not None and cap.mut:
+                c.I.havoc_through(s2, cap)
+        c.I.write_place(s2, c.frame, c.term["dest"], UNIT)
+        c.results.append(s2)
